@@ -1,5 +1,5 @@
 //! std::thread look-alike: real OS threads registered with the simulator.
-pub use std::thread::{current, panicking, Result, Thread, ThreadId};
+pub use std::thread::{available_parallelism, current, panicking, Result, Thread, ThreadId};
 
 use crate::rt::{self, Ctx, Obj, Op, Parker};
 use std::io;
@@ -140,4 +140,18 @@ pub fn yield_now() {
         return;
     }
     rt::point(Op::Yield);
+}
+
+/// std::thread::park: returns at once after a scheduling point.  park() may wake spuriously by
+/// contract, so its callers re-check their condition; Thread::unpark stays the real one.
+pub fn park() {
+    yield_now();
+}
+
+pub fn park_timeout(d: Duration) {
+    if d.is_zero() {
+        yield_now();
+    } else {
+        sleep(d.min(Duration::from_millis(1)));
+    }
 }
